@@ -23,7 +23,7 @@ ASSUMPTIONS = [
 ]
 MONITORS = "independent walk of the workspace (bytes, directories, exec bits) after apply; second compare's action lists; onerror recorder; audit-hook log of removals"
 REQUIRED_COUNTERS = [
-    "applies", "kind_swap_cases", "nested_dir_deletions", "lazy_targets", "explicit_targets", "delete_off_cases",
+    "unavailable_directory_object_cases", "applies", "kind_swap_cases", "nested_dir_deletions", "lazy_targets", "explicit_targets", "delete_off_cases",
     "unavailable_source_cases", "second_compares", "exec_entries_checked", "link/hardlink", "link/symlink", "link/copy",
 ]
 
@@ -99,6 +99,11 @@ def run_shard(ctx):
                         unavailable.add(o)
                 if unavailable:
                     res.count("unavailable_source_cases")
+            # the lazily loaded directory's own object is missing from the cache: must be reported, whatever the workspace holds
+            dir_unavailable = False
+            if lazy and rng.random() < 0.12:
+                dir_unavailable = True
+                res.count("unavailable_directory_object_cases")
             gen.write_tree(ws, P, Pe)
             for k in pexec:
                 os.chmod(os.path.join(ws, *k), 0o755)
@@ -130,6 +135,28 @@ def run_shard(ctx):
 
             old = indexlab.workspace_index(ws)
             new = target()
+            if dir_unavailable:
+                dp = cache.oid_to_path(indexlab.dir_oid(T, lazy_at)[0])
+                os.chmod(dp, 0o644)
+                os.unlink(dp)
+                errors_d = []
+                diff = compare(old, new, delete=delete)
+                try:
+                    apply(diff, ws, fs, update_meta=False, storage="cache", onerror=lambda s_, dst, e: errors_d.append(dst), state=state,
+                          links=None if link == "default" else [link])
+                except Exception:  # noqa: BLE001  (loud is fine)
+                    errors_d.append("raised")
+                want = os.path.join(ws, *lazy_at)
+                if not any(e == "raised" or e == want or (e and (e.startswith(want + os.sep) or want.startswith(e + os.sep))) for e in errors_d):
+                    prior_has_dir = lazy_at in indexlab.dirs_of(P, Pe)
+                    res.violation("unavailable-directory-not-reported" + ("/workspace-already-has-it" if prior_has_dir else ""),
+                                  f"directory {'/'.join(lazy_at)} cannot be loaded (its object is not in the cache) and nothing was reported to onerror",
+                                  case=case, detail=cfg)
+                if state is not None:
+                    state.close()
+                env.reset_staging()
+                ctx.drop(d)
+                return
             apply_exc = None
             with Recorder([ws]) as rec:
                 diff = compare(old, new, delete=delete)
